@@ -27,7 +27,28 @@ def val(name):
 
 
 entry = r['entry']
-if entry == 'solve':
+
+
+def conc(v):
+    v = math.inf if v == 'inf' else float(v)
+    return v if kind == 'real' else (math.log(v) if v > 0 else -math.inf)
+
+
+if r.get('A') is not None and entry == 'solve':
+    n, m = r['n'], r.get('m')
+    elems = [[conc(v) for row in r['A'] for v in row], [val(f'b{i}') for i in range(n * (m or 1))]]
+    ny = n * (m or 1)
+elif r.get('A') is not None:
+    M = r['A']
+    n = len(M)
+    rng_ = {'x': range(0, n - 1), 'y': range(n - 1, n)}
+    r['ablocks'] = [tuple(x) for x in r['ablocks']]
+    ea = {a + b: [conc(M[i][j]) for i in rng_[a] for j in rng_[b]] for a, b in r['ablocks']}
+    numel = {'x': n - 1, 'y': 1}
+    eb = {k: [val(f'b{k}{i}') for i in range(numel[k])] for k in r['bblocks']}
+    elems = [ea, eb]
+    ny = n
+elif entry == 'solve':
     n, m = r['n'], r.get('m')
     elems = [[val(f'a{i}') for i in range(n * n)], [val(f'b{i}') for i in range(n * (m or 1))]]
     ny = n * (m or 1)
